@@ -31,6 +31,7 @@ type cworld struct {
 	valIdx  []map[int]int                      // per enum: value handle -> index
 	refs    [][]int                            // per enum: signal handles
 	caps    []map[int]int                      // per enum: sg -> cap (-1 none)
+	refKind []int                              // per enum: 0 no capped reference yet, 1 in messages, 2 in multiplexer groups
 	sigID   map[acmelib.EntityID]int
 	valH    map[acmelib.EntityID]int
 	attrH   map[acmelib.EntityID]int
@@ -254,6 +255,7 @@ func corrHistory(rep *report, r *rng, hidx int, probe int) (string, [3]int, int)
 		c.valIdx = append(c.valIdx, map[int]int{})
 		c.refs = append(c.refs, nil)
 		c.caps = append(c.caps, map[int]int{})
+		c.refKind = append(c.refKind, 0)
 		emit("ne", []int{0})
 	}
 	newBus()
@@ -388,16 +390,39 @@ func corrHistory(rep *report, r *rng, hidx int, probe int) (string, [3]int, int)
 			if err != nil {
 				continue
 			}
-			capBits := -1
-			if r.chance(70) {
+			capBits, inMsg := -1, 0
+			// all capped references of one enum have the same kind of parent: which failing
+			// reference sets the hint depends on map order, and the error route (the only
+			// observable of that choice) must not
+			kk := r.intn(10)
+			if c.refKind[e] == 1 && kk >= 5 && kk < 8 {
+				kk = 0
+			} else if c.refKind[e] == 2 && kk < 5 {
+				kk = 6
+			}
+			switch {
+			case kk < 5: // the only signal of its own message
 				bytes := (c.enums[e].GetSize()+7)/8 + r.intn(2)
 				if bytes > 8 {
 					bytes = 8
 				}
 				hm := acmelib.NewMessage(fmt.Sprintf("hidden%d", sg), acmelib.MessageID(5000+sg), bytes)
 				if hm.AppendSignal(sig) == nil {
-					capBits = bytes * 8
+					capBits, inMsg = bytes*8, 1
+					c.refKind[e] = 1
 					c.hidden = append(c.hidden, hm)
+				}
+			case kk < 8: // the only signal of group 0 of a multiplexer signal that is in no message
+				gsize := c.enums[e].GetSize() + r.intn(6)
+				if gsize > 56 {
+					gsize = 56
+				}
+				if mux, err := acmelib.NewMultiplexerSignal(fmt.Sprintf("hmux%d", sg), 2, gsize); err == nil {
+					if mux.InsertSignal(sig, 0, 0) == nil {
+						capBits = gsize
+						c.refKind[e] = 2
+						c.hidden = append(c.hidden, mux)
+					}
 				}
 			}
 			c.sigObjs = append(c.sigObjs, sig)
@@ -408,7 +433,7 @@ func corrHistory(rep *report, r *rng, hidx int, probe int) (string, [3]int, int)
 			if capBits >= 0 {
 				cs = strconv.Itoa(capBits)
 			}
-			emit(fmt.Sprintf("er:%d:%d:%s", e, sg, cs), []int{0})
+			emit(fmt.Sprintf("er:%d:%d:%s:%d", e, sg, cs, inMsg), []int{0})
 		case k < 72: // add value: small, duplicate index, duplicate name, or too big for a capped signal
 			e := r.intn(len(c.enums))
 			v := c.nextVal
